@@ -1,10 +1,281 @@
-/- Line-protocol handlers for C13 (placeholder until the property is built). -/
-import PandoraModel.Model.Basic
+/-
+  Line-protocol handlers for C13: the composed run of the step models (`Model/PipelineRun.lean`) on a concrete pair,
+  every intermediate map returned, and the decidable hypotheses of `run_crop_eq_whole` on a (whole, crop) pair.
+
+  `C13.run`   input: the matching-cost input of `C02` (`meas`, `w`, `sp`, `rows`, `cols`, `L`, `R`, `mL`, `mR`, `valid`,
+              `nodata`, `dmin`, `dmax` grids) plus
+                "invalid"        invalid_disparity (number or "nan")
+                "refine"         null | {"method": "vfit"|"quadratic", "variant": {"flat","or","ends"}}
+                "fs"             median filter size (0: no filter)
+                "invalid_mask"   PANDORA_MSK_PIXEL_INVALID
+                "split_wta", "split_median"   block splits read from the source
+                "cbca"           null | {"dist", "I", "rule"}
+                "cc"             {"threshold", "offset", "variant"}
+              output: `flags`, `mc` (after matching cost), `cv` (cost rows entering winner-takes-all), `wta`, `refine`, `filter`
+              (disparity and flag maps after each stage) for the left and for the right chain, `cc` (flag word and
+              confidence cell after cross-checking: the left one is `fullRunR` itself), exact rationals / "nan".
+  `C13.hyps`  input: "whole", "crop" (two `C13.run` inputs), "r0", "c0"; output: which Bool hypotheses hold and how
+              many crop pixels have their documented cone inside the crop, with `out' r c = out (r + r0) (c + c0)`
+              evaluated on them.
+-/
+import PandoraModel.Model.PipelineRun
+import PandoraModel.Driver.C02
+import PandoraModel.Driver.C03
+import PandoraModel.Driver.C07
+import PandoraModel.Driver.C11
 
 namespace Pandora.Driver.C13
 open Lean (Json)
+open Pandora Pandora.MC Pandora.C13
 
-def handle (op : String) (_j : Json) : Except String Json :=
-  throw s!"unknown op {op}"
+/-- float value of an exact cost cell (sad, ssd, census); the symbolic zncc quotient is not evaluated -/
+def numOnly : MC.Cell → Val
+  | .num q => .num q
+  | _ => .nan
+
+structure Cfg where
+  x : MC.Input
+  K : RunCfg
+  K' : RunCfg
+  G : Option AggCfg
+  V : CrossCheck.Variant
+  CP : CrossCheck.Params
+  CP' : CrossCheck.Params
+
+def dispsOf (x : MC.Input) : List Rat :=
+  (dispRange (gminOf x) (gmaxOf x) x.sp).map fun k => ((k : Int) : Rat) / ((x.sp : Int) : Rat)
+
+def refineOfJson (j : Json) (sp : Nat) (lo hi : Int) : Except String (Bool × Refinement.Params) := do
+  let dflt : Refinement.Params :=
+    { variant := { fixFlat := false, fixOr := false, fixEnds := false }, method := .vfit, isMax := false, subpix := sp,
+      dmin := (lo : Rat), dmax := (hi : Rat) }
+  match j with
+  | Json.null => return (false, dflt)
+  | _ =>
+    let m ← field j "method" >>= strOfJson
+    let method ← match m with
+      | "vfit" => pure Refinement.Method.vfit
+      | "quadratic" => pure Refinement.Method.quadratic
+      | _ => throw s!"unknown method {m}"
+    let flag := fun (k : String) => match (fieldD j "variant" (Json.mkObj [])).getObjVal? k with
+      | .ok (Json.bool b) => b
+      | _ => false
+    return (true, { dflt with method, variant := { fixFlat := flag "flat", fixOr := flag "or", fixEnds := flag "ends" } })
+
+def cfgOfJson (j : Json) : Except String Cfg := do
+  let x ← Driver.C02.inputOfJson j
+  if x.meas == .zncc then throw "zncc: the composed run needs exact costs"
+  let invalid ← field j "invalid" >>= valOfJson
+  let fs ← natOfJson (fieldD j "fs" (natToJson 0))
+  let invalidMask ← field j "invalid_mask" >>= natOfJson
+  let sW ← field j "split_wta" >>= Driver.C03.splitOfJson
+  let sM ← field j "split_median" >>= Driver.C03.splitOfJson
+  let xs := swapInput x
+  let (doRefine, rp) ← refineOfJson (fieldD j "refine" Json.null) x.sp (gminOf x) (gmaxOf x)
+  let (_, rp') ← refineOfJson (fieldD j "refine" Json.null) x.sp (gminOf xs) (gmaxOf xs)
+  let K : RunCfg :=
+    { ev := numOnly, isMax := false, disps := dispsOf x, invalid, refine := rp, invalidMask, fs,
+      doRefine, doMedian := fs != 0, sW, sM }
+  let K' : RunCfg := { K with disps := dispsOf xs, refine := rp' }
+  let G ← match fieldD j "cbca" Json.null with
+    | Json.null => pure none
+    | g => do
+      let dist ← field g "dist" >>= natOfJson
+      let I ← field g "I" >>= ratOfJson
+      let mr ← field g "rule" >>= Driver.C11.ruleOfJson
+      pure (some ({ dist, I, mr } : AggCfg))
+  let cc ← field j "cc"
+  let threshold ← field cc "threshold" >>= ratOfJson
+  let offset ← natOfJson (fieldD cc "offset" (natToJson 0))
+  let V ← Driver.C07.variantOfJson cc
+  return { x, K, K', G, V,
+           CP := { threshold, dmin := gminOf x, dmax := gmaxOf x, offset },
+           CP' := { threshold, dmin := gminOf xs, dmax := gmaxOf xs, offset } }
+
+/-- an index function evaluated on the image … -/
+def tab {α : Type} (rows cols : Nat) (f : Nat → Nat → α) : Array (Array α) :=
+  ((List.range rows).map fun r => ((List.range cols).map (f r)).toArray).toArray
+
+/-- … and read back from the arrays (extensionally the same function on the image).  Always used as
+    `look (tab rows cols f) d` inside a value (never under a `fun`), so that the array is built once. -/
+def look {α : Type} (a : Array (Array α)) (d : α) : Nat → Nat → α :=
+  fun r c => (a.getD r #[]).getD c d
+
+/-- the cost rows entering winner-takes-all: `costRow` or `aggRow`, evaluated once -/
+def rowsTab (K : RunCfg) (G : Option AggCfg) (x : MC.Input) : Array (Array (List Val)) :=
+  match G with
+  | none => tab x.L.rows x.L.cols (costRow K x)
+  | some g => tab x.L.rows x.L.cols (aggRow K g x)
+
+def natGrid (rows cols : Nat) (f : Nat → Nat → Nat) : Json := gridToJson natToJson (Blocks.tabulate rows cols f)
+def valGrid (rows cols : Nat) (f : Nat → Nat → Val) : Json := gridToJson valToJson (Blocks.tabulate rows cols f)
+
+def mapsToJson (rows cols : Nat) : Option Maps → Json
+  | none => Json.str "raises"
+  | some m => mkObj [("disp", valGrid rows cols m.disp), ("flag", natGrid rows cols m.flag)]
+
+def pixGrid (rows cols : Nat) (f : Nat → Nat → CrossCheck.PixOut) : Json :=
+  mkObj [("mask", natGrid rows cols fun r c => (f r c).flag),
+         ("conf", gridToJson Driver.C07.confToJson (Blocks.tabulate rows cols fun r c => (f r c).conf))]
+
+def memoMaps (rows cols : Nat) (m : Maps) : Maps := ⟨look (tab rows cols m.disp) .nan, look (tab rows cols m.flag) 0⟩
+
+/-- the stages of one chain, each evaluated once on the image and read back from arrays: the flags, the map of
+    `to_disp`, the maps after the optional refinement and after the optional median filter.  The same step functions, in
+    the same order, as `afterRefineR` / `afterFilterR` (which recompute their inputs at every cell they read); `spotOK`
+    compares the two on sampled pixels at every call. -/
+structure Chain where
+  flags : Nat → Nat → Nat
+  wta : Nat → Nat → Val
+  refined : Option Maps
+  filtered : Option Maps
+
+def chainOf (K : RunCfg) (x : MC.Input) (R : Nat → Nat → List Val) : Chain :=
+  let rows := x.L.rows
+  let cols := x.L.cols
+  let flags := look (tab rows cols (C04C02.composedMask x)) 0
+  let wta := look (tab rows cols (wtaMapR K x R)) .nan
+  let refined : Option Maps :=
+    if K.doRefine then
+      match Refinement.loopRefinement K.refine (Blocks.tabulate rows cols fun r c =>
+          ⟨R r c, wta r c, flags r c, ((x.dminG (r : Int) (c : Int) : Int) : Rat), ((x.dmaxG (r : Int) (c : Int) : Int) : Rat)⟩) with
+      | .ok o =>
+        some (memoMaps rows cols
+          ⟨fun r c => match gridImg o ((r : Int), (c : Int)) with | some y => y.d | none => .nan,
+           fun r c => match gridImg o ((r : Int), (c : Int)) with | some y => y.flag | none => 0⟩)
+      | .err _ => none
+    else some ⟨wta, flags⟩
+  let filtered := refined.map fun m =>
+    if K.doMedian then
+      memoMaps rows cols ⟨Filter.medianFilterDisparity K.sM K.invalidMask K.fs rows cols m.flag m.disp, m.flag⟩
+    else m
+  { flags, wta, refined, filtered }
+
+def chainToJson (K : RunCfg) (x : MC.Input) (R : Nat → Nat → List Val) (ch : Chain) : List (String × Json) :=
+  let rows := x.L.rows
+  let cols := x.L.cols
+  [("flags", natGrid rows cols ch.flags),
+   ("mc", gridToJson (listToJson valToJson) (Blocks.tabulate rows cols (costRow K x))),
+   ("cv", gridToJson (listToJson valToJson) (Blocks.tabulate rows cols R)),
+   ("wta", valGrid rows cols ch.wta),
+   ("refine", mapsToJson rows cols ch.refined),
+   ("filter", mapsToJson rows cols ch.filtered)]
+
+/-- `disparity_checking(A, B)` evaluated once: the expression under the `fun r c` of `fullRunR` -/
+def ccOf (V : CrossCheck.Variant) (CP : CrossCheck.Params) (rows cols : Nat) (A B : Option Maps) : Option CrossCheck.Out :=
+  match A, B with
+  | some A, some B =>
+    some (CrossCheck.check V CP (leftDataset rows cols A) { disp := Blocks.tabulate rows cols B.disp, mask := [] })
+  | _, _ => none
+
+def ccToJson (rows cols : Nat) : Option CrossCheck.Out → Json
+  | some o => pixGrid rows cols (C07.outPix o)
+  | none => Json.str "raises"
+
+/-- the literal definitions (`afterFilterR`, `fullRunR`) at the sampled pixels against the staged evaluation -/
+def spotOK (C : Cfg) (R R' : Nat → Nat → List Val) (ch : Chain) (cc : Option CrossCheck.Out) (spots : List (Nat × Nat)) : Bool :=
+  let x := C.x
+  let lit := fullRunR C.K C.K' C.V C.CP x R R'
+  let litA := afterFilterR C.K x R
+  (match lit, cc with
+    | some f, some o => spots.all fun (r, c) => decide (f r c = C07.outPix o r c)
+    | none, none => true
+    | _, _ => false) &&
+  (match litA, ch.filtered with
+    | some a, some b => spots.all fun (r, c) => decide (a.disp r c = b.disp r c) && decide (a.flag r c = b.flag r c)
+    | none, none => true
+    | _, _ => false)
+
+structure Eval where
+  R : Nat → Nat → List Val
+  R' : Nat → Nat → List Val
+  chL : Chain
+  chR : Chain
+  ccL : Option CrossCheck.Out
+  ccR : Option CrossCheck.Out
+
+def evalOf (C : Cfg) : Eval :=
+  let x := C.x
+  let xs := swapInput x
+  let R := look (rowsTab C.K C.G x) []
+  let R' := look (rowsTab C.K' C.G xs) []
+  let chL := chainOf C.K x R
+  let chR := chainOf C.K' xs R'
+  { R, R', chL, chR,
+    ccL := ccOf C.V C.CP x.L.rows x.L.cols chL.filtered chR.filtered,
+    -- the right map checked against the left one (`validation_run` does both; not part of `fullRunR`)
+    ccR := ccOf C.V C.CP' x.L.rows x.L.cols chR.filtered chL.filtered }
+
+def spotsOfJson (j : Json) : Except String (List (Nat × Nat)) := do
+  let l ← listOfJson (listOfJson natOfJson) (fieldD j "spots" (Json.arr #[]))
+  l.mapM fun p => match p with
+    | [r, c] => pure (r, c)
+    | _ => throw "spots: expected [r, c]"
+
+def runOp (j : Json) : Except String Json := do
+  let C ← cfgOfJson j
+  let spots ← spotsOfJson j
+  let x := C.x
+  let xs := swapInput x
+  let rows := x.L.rows
+  let cols := x.L.cols
+  let E := evalOf C
+  return mkObj [
+    ("gmin", intToJson (gminOf x)), ("gmax", intToJson (gmaxOf x)),
+    ("disps", listToJson ratToJson C.K.disps), ("disps_right", listToJson ratToJson C.K'.disps),
+    ("wf", Json.bool (wfShape x && wfShape xs)),
+    ("spot_ok", Json.bool (spotOK C E.R E.R' E.chL E.ccL spots)), ("spots", natToJson spots.length),
+    ("left", mkObj (chainToJson C.K x E.R E.chL ++ [("cc", ccToJson rows cols E.ccL)])),
+    ("right", mkObj (chainToJson C.K' xs E.R' E.chR ++ [("cc", ccToJson rows cols E.ccR)]))]
+
+def hypsOp (j : Json) : Except String Json := do
+  let W ← field j "whole" >>= cfgOfJson
+  let C ← field j "crop" >>= cfgOfJson
+  let r0 ← field j "r0" >>= natOfJson
+  let c0 ← field j "c0" >>= natOfJson
+  let spots ← spotsOfJson j
+  let x := W.x
+  let x' := C.x
+  let EW := evalOf W
+  let EC := evalOf C
+  let out := EW.ccL
+  let out' := EC.ccL
+  let A := EW.chL.filtered
+  let A' := EC.chL.filtered
+  let inI := match A with | some a => leftInIntervalB W.CP x.L.rows x.L.cols a | none => false
+  let inI' := match A' with | some a => leftInIntervalB C.CP x'.L.rows x'.L.cols a | none => false
+  let cone := docCone W.K W.CP x
+  let mut inCone := 0
+  let mut equal := 0
+  let mut firstDiff : Json := Json.null
+  match out, out' with
+  | some o, some o' =>
+    for r in List.range x'.L.rows do
+      for c in List.range x'.L.cols do
+        if coneInCropB cone x.L.rows x.L.cols r0 c0 x'.L.rows x'.L.cols r c then
+          inCone := inCone + 1
+          let a := C07.outPix o' r c
+          let b := C07.outPix o (r + r0) (c + c0)
+          if a.flag == b.flag && a.conf == b.conf then equal := equal + 1
+          else if firstDiff == Json.null then
+            firstDiff := mkObj [("r", natToJson r), ("c", natToJson c), ("crop", natToJson a.flag), ("whole", natToJson b.flag)]
+  | _, _ => pure ()
+  return mkObj [
+    ("run_ok_whole", Json.bool (runOKB W.K W.K' x)), ("run_ok_crop", Json.bool (runOKB C.K C.K' x')),
+    ("crop_run", Json.bool (cropRunB x x' r0 c0)),
+    ("same_cfg", Json.bool (W.K.disps == C.K.disps && W.K'.disps == C.K'.disps && W.CP.dmin == C.CP.dmin
+      && W.CP.dmax == C.CP.dmax)),
+    ("returns_whole", Json.bool out.isSome), ("returns_crop", Json.bool out'.isSome),
+    ("left_in_interval_whole", Json.bool inI), ("left_in_interval_crop", Json.bool inI'),
+    ("doc_cone_ok", Json.bool (docConeOKB W.K W.K' x)), ("aggregation", Json.bool W.G.isSome),
+    ("spot_ok", Json.bool (spotOK C EC.R EC.R' EC.chL EC.ccL spots)),
+    ("cone", listToJson natToJson [cone.up, cone.down, cone.left, cone.right]),
+    ("pixels_in_cone", natToJson inCone), ("pixels_equal", natToJson equal), ("first_diff", firstDiff)]
+
+def handle (op : String) (j : Json) : Except String Json :=
+  match op with
+  | "C13.run" => runOp j
+  | "C13.hyps" => hypsOp j
+  | _ => throw s!"unknown op {op}"
 
 end Pandora.Driver.C13
